@@ -5,12 +5,20 @@ driver for M-Tcp (`bobodrv modes`).  Records are run ids (`String`); lists are c
 
   new <self> <pping> <presync> <astash> <aping> <aresync> <flag01> <urn> <urn> ...   -> ok
   newdef <self> <flag01> <urn> <urn> ...        (constructor default periods)         -> ok
-  set <urn> <last_comms> <last_attempt> <flag01> <c> <h> <u>                           -> state
+  set <urn> <last_comms> <last_attempt> <resets> <flag01> <c> <h> <u>                  -> state
   push <c> <h> <u>                              (on_decider_update, local)             -> state
   in <urn> <flags>                              (listener handled a message from urn)  -> state
   pass <now> <snapC> <snapH> <snapU> <urn>:<err>:<clock> ...   (one entry per device other than self)
         -> wires=<urn|type|flags|c|h|u ; ...> # state
-  state = <urn|last_comms|last_attempt|flag|c|h|u ; ...> q=<len>
+        (computed by `outIter`; cross-checked against the small-step `passSmall` with an empty schedule:
+         a difference answers `model-mismatch`)
+  passmid <now> <snapC> <snapH> <snapU> <urn>:<err>:<clock> ... @ <pt>:<urn>:<from>:<flags> ...
+        one pass in small steps (`passSmall`); each `@` entry: while the outgoing thread is at boundary <pt> of
+        device <urn> (bs before `resets` is read, bc before `last_comms` is read, br before the rest is read,
+        bp before the send-loop body, ds during `_tcp_send`, ba before `last_attempt = now`, end: after the pass)
+        the listener handles a message with <flags> from device <from>; entries of one boundary in the order given
+        -> same format as pass
+  state = <urn|last_comms|last_attempt|resets|flag|c|h|u ; ...> q=<len>
 -/
 namespace Bobo.Drv.Modes
 open Bobo.Tcp
@@ -28,7 +36,7 @@ def parseBool? (s : String) : Option Bool :=
   if s = "0" then some false else if s = "1" then some true else none
 
 def showPeer (e : String × Peer String) : String :=
-  "|".intercalate [e.1, toString e.2.lastComms, toString e.2.lastAttempt, boolStr e.2.flagReset,
+  "|".intercalate [e.1, toString e.2.lastComms, toString e.2.lastAttempt, toString e.2.resets, boolStr e.2.flagReset,
     showList e.2.stashC, showList e.2.stashH, showList e.2.stashU]
 
 def showState (s : TState String) : String :=
@@ -63,6 +71,34 @@ def lookupOutcome (l : List (Nat × Nat × Int)) (i : Nat) : Nat × Int :=
   | some r => r
   | none => (2, 0)   -- unreachable: `pass` checks that every non-self device has an entry
 
+def others (s : TState String) : List Nat :=
+  (List.range s.peers.length).filter (fun i =>
+    match s.peers[i]? with
+    | some e => e.1 ≠ s.self
+    | none => false)
+
+def showPass (s s' : TState String) (wires : List (Wire String)) : String :=
+  "wires=" ++ " ; ".intercalate (wires.map (showWire s)) ++ " # " ++ showState s'
+
+def parsePoint (k : String) (i : Nat) : Option Point :=
+  match k with
+  | "bs" => some (.beforeResets i)
+  | "bc" => some (.beforeComms i)
+  | "br" => some (.beforeRest i)
+  | "bp" => some (.beforePre i)
+  | "ds" => some (.duringSend i)
+  | "ba" => some (.beforeAttempt i)
+  | "end" => some .atEnd
+  | _ => none
+
+def parseEvent (s : TState String) (w : String) : Option (Point × Nat × Nat) :=
+  match w.splitOn ":" with
+  | [k, u, frm, fl] =>
+    match indexOf? u s.peers, indexOf? frm s.peers, parseNat? fl with
+    | some i, some j, some fl => (parsePoint k i).map (fun pt => (pt, j, fl))
+    | _, _, _ => none
+  | _ => none
+
 def step (d : DS) (line : String) : DS × String :=
   match words line, d.st with
   | "new" :: self :: pp :: pr :: as :: ap :: ar :: fl :: urns, _ =>
@@ -79,12 +115,12 @@ def step (d : DS) (line : String) : DS × String :=
       | some s => ({ st := some s }, "ok")
       | none => (d, "bad-op")
     | none => (d, "bad-op")
-  | ["set", urn, lc, la, fl, c, h, u], some s =>
-    match indexOf? urn s.peers, parseInt? lc, parseInt? la, parseBool? fl with
-    | some i, some lc, some la, some fl =>
-      let s' := { s with peers := s.peers.set i (urn, ⟨lc, la, fl, parseList c, parseList h, parseList u⟩) }
+  | ["set", urn, lc, la, rs, fl, c, h, u], some s =>
+    match indexOf? urn s.peers, parseInt? lc, parseInt? la, parseNat? rs, parseBool? fl with
+    | some i, some lc, some la, some rs, some fl =>
+      let s' := { s with peers := s.peers.set i (urn, ⟨lc, la, rs, fl, parseList c, parseList h, parseList u⟩) }
       ({ st := some s' }, showState s')
-    | _, _, _, _ => (d, "bad-op")
+    | _, _, _, _, _ => (d, "bad-op")
   | ["push", c, h, u], some s =>
     let s' := push s ⟨parseList c, parseList h, parseList u⟩
     ({ st := some s' }, showState s')
@@ -97,15 +133,26 @@ def step (d : DS) (line : String) : DS × String :=
   | "pass" :: now :: sc :: sh :: su :: outs, some s =>
     match parseInt? now, outs.mapM (parseOutcome s) with
     | some now, some ol =>
-      let others := (List.range s.peers.length).filter (fun i =>
-        match s.peers[i]? with
-        | some e => e.1 ≠ s.self
-        | none => false)
-      if others.all (fun i => (ol.lookup i).isSome) then
-        let r := outIter s now ⟨parseList sc, parseList sh, parseList su⟩ (lookupOutcome ol)
-        ({ st := some r.1 }, "wires=" ++ " ; ".intercalate (r.2.map (showWire s)) ++ " # " ++ showState r.1)
+      if (others s).all (fun i => (ol.lookup i).isSome) then
+        let snap : Msg String := ⟨parseList sc, parseList sh, parseList su⟩
+        let r := outIter s now snap (lookupOutcome ol)
+        let r' := passSmall s now (fun _ => s.queue.isEmpty) snap (lookupOutcome ol) (fun _ => [])
+        let line := showPass s r.1 r.2
+        if line = showPass s r'.1 r'.2.1 then ({ st := some r.1 }, line) else (d, "model-mismatch")
       else (d, "bad-op")
     | _, _ => (d, "bad-op")
+  | "passmid" :: now :: sc :: sh :: su :: rest, some s =>
+    let outs := rest.takeWhile (· ≠ "@")
+    let evs := (rest.dropWhile (· ≠ "@")).drop 1
+    match parseInt? now, outs.mapM (parseOutcome s), evs.mapM (parseEvent s) with
+    | some now, some ol, some evl =>
+      if (others s).all (fun i => (ol.lookup i).isSome) then
+        let snap : Msg String := ⟨parseList sc, parseList sh, parseList su⟩
+        let sched : Point → List (Nat × Nat) := fun pt => (evl.filter (fun x => x.1 = pt)).map (·.2)
+        let r := passSmall s now (fun _ => s.queue.isEmpty) snap (lookupOutcome ol) sched
+        ({ st := some r.1 }, showPass s r.1 r.2.1)
+      else (d, "bad-op")
+    | _, _, _ => (d, "bad-op")
   | _, _ => (d, "bad-op")
 
 end Bobo.Drv.Modes
